@@ -18,9 +18,9 @@ META = dict(
                'MapDataset/SliceDataset/ItemsDataset access paths'],
     stubs=[],
     assumptions=['honest note: there is no arithmetic here; the solver contributes exhaustiveness over the selector space (equivalent to bounded-exhaustive enumeration), decided path by path',
-                 'payloads are nested dict/list/int values with a 4800-byte and a 64-byte numpy array; two examples per dataset'],
+                 'payloads are nested dict/list/int values with a 4800-byte and a 64-byte numpy array, either bare (shape dict) or wrapped in a tuple (id, payload) (shape tuple); two examples per dataset'],
     bounds=dict(quick='9 storage kinds x histories of 1 step (all access paths x mutations x targets) and 2 steps (first step structural, sampled 1 in 3)', thorough='all 2-step histories'),
-    outside=['histories longer than 2 steps', 'payload types other than dict/list/int/numpy arrays'],
+    outside=['histories longer than 2 steps', 'payload types other than dict/list/tuple/int/numpy arrays'],
 )
 
 SOURCES = ['new_dict_pickle', 'new_list_pickle', 'new_dict_copy', 'new_list_copy', 'list_wu', 'cache_over_new', 'cache_over_raw', 'diskcache_over_new', 'eager_cache']
@@ -30,7 +30,23 @@ N = 2
 _COUNTER = [0]
 
 
-def _payload():
+SHAPES = ['dict', 'tuple']
+
+
+def _payload(shape='dict'):
+    """shape 'dict': every example is a nested dict; shape 'tuple': every example is a tuple (id, nested dict) - an immutable container
+    around mutable data, which a "nothing to protect" shortcut keyed on the top-level type would hand out unprotected"""
+    d = _payload_dict()
+    if shape == 'tuple':
+        return {k: (i, v) for i, (k, v) in enumerate(d.items())}
+    return d
+
+
+def _inner(ex):
+    return ex[1] if isinstance(ex, tuple) else ex
+
+
+def _payload_dict():
     import numpy as np
     # 'w': 4800 bytes (above the 4 KiB out-of-band thresholds of pickle protocol 5), 'u': 64 bytes
     return {'k0': {'a': [1, {'b': 2}], 'c': 3, 'w': np.arange(600, dtype=np.float64), 'u': np.arange(8, dtype=np.float64)},
@@ -101,6 +117,7 @@ def _access(ds, acc, t, keyed):
 
 
 def _mutate(ex, mut, payload, t, source):
+    ex = _inner(ex)
     if mut == 'setkey':
         ex['new'] = 1
     elif mut == 'append':
@@ -121,9 +138,10 @@ def _mutate(ex, mut, payload, t, source):
     elif mut == 'orig':
         # mutate the original container after construction: no effect for the serialising modes (pickle, wu, caches over them)
         if source in ('new_dict_pickle', 'new_list_pickle', 'list_wu', 'cache_over_new', 'diskcache_over_new', 'eager_cache'):
-            payload[f'k{t}']['c'] = 99
-            payload[f'k{t}']['a'].append(0)
-            payload[f'k{t}']['w'][:] = -7
+            orig = _inner(payload[f'k{t}'])
+            orig['c'] = 99
+            orig['a'].append(0)
+            orig['w'][:] = -7
         else:
             ex['a'][0] = -5
 
@@ -137,10 +155,10 @@ def _check_all(ds, keyed, pristine):
     return True
 
 
-def _run(source, steps):
+def _run(source, steps, shape='dict'):
     import warnings
     warnings.simplefilter('ignore')
-    payload = _payload()
+    payload = _payload(shape)
     pristine = copy.deepcopy(payload)
     _COUNTER[0] += 1
     scratch = os.path.join(os.environ.get('VERIF_WORK') or '/var/tmp', f'c09_{os.getpid()}_{_COUNTER[0]}')
@@ -170,24 +188,24 @@ def _pick(sel, n):
     return k
 
 
-def body_iso1(source, a, m, t):
+def body_iso1(source, shape, a, m, t):
     for v, hi in ((a, len(ACCESS)), (m, len(MUTATE)), (t, N)):
         rt.assume(0 <= v)
         rt.assume(v < hi)
     step = (ACCESS[_pick(a, len(ACCESS))], MUTATE[_pick(m, len(MUTATE))], _pick(t, N))
     with _untraced():
-        ok = _run(source, [step])
+        ok = _run(source, [step], shape)
     rt.reached()
     return ok
 
 
-def body_iso2(source, acc1, mut1, t1, a, m, t):
+def body_iso2(source, shape, acc1, mut1, t1, a, m, t):
     for v, hi in ((a, len(ACCESS)), (m, len(MUTATE)), (t, N)):
         rt.assume(0 <= v)
         rt.assume(v < hi)
     step2 = (ACCESS[_pick(a, len(ACCESS))], MUTATE[_pick(m, len(MUTATE))], _pick(t, N))
     with _untraced():
-        ok = _run(source, [(acc1, mut1, t1), step2])
+        ok = _run(source, [(acc1, mut1, t1), step2], shape)
     rt.reached()
     return ok
 
@@ -200,15 +218,18 @@ def _c2(tier, seed):
             for m in MUTATE:
                 for t in range(N):
                     k += 1
-                    if tier == 'quick' and (k + seed) % 3 != 0:
-                        continue
-                    out.append((s, a, m, t))
+                    if tier == 'quick':
+                        if (k + seed) % 3 != 0:
+                            continue
+                        out.append((s, SHAPES[(k // 3) % 2], a, m, t))        # quick: the two example shapes alternate over the sampled first steps
+                    else:
+                        out += [(s, sh, a, m, t) for sh in SHAPES]
     return out
 
 
 FAMILIES = [
-    Family('iso1', body_iso1, ['source'], [('a', 'int'), ('m', 'int'), ('t', 'int')], lambda tier, seed: [(s,) for s in SOURCES], timeout=dict(quick=120, thorough=300),
+    Family('iso1', body_iso1, ['source', 'shape'], [('a', 'int'), ('m', 'int'), ('t', 'int')], lambda tier, seed: [(s, sh) for s in SOURCES for sh in SHAPES], timeout=dict(quick=120, thorough=300),
            desc='one access + in-place mutation, then every access path must return the pristine snapshot'),
-    Family('iso2', body_iso2, ['source', 'acc1', 'mut1', 't1'], [('a', 'int'), ('m', 'int'), ('t', 'int')], _c2, timeout=dict(quick=120, thorough=300),
+    Family('iso2', body_iso2, ['source', 'shape', 'acc1', 'mut1', 't1'], [('a', 'int'), ('m', 'int'), ('t', 'int')], _c2, timeout=dict(quick=120, thorough=300),
            desc='two-step histories'),
 ]
